@@ -66,7 +66,21 @@ def gen(rng, tier):
                                 {"f": "arr", "shape": [2] + list(base)}, {"f": "arr", "shape": [1] + list(base)},
                                 {"f": "arr", "shape": list(rng.choice(SHAPES))},
                                 {"f": "arr", "shape": list(rng.choice(SHAPES))}])
-            cases.append({"kind": "neuron", "cls": cls, "shapes": shapes, "w_in": w})
+            c0 = {"kind": "neuron", "cls": cls, "shapes": shapes, "w_in": w}
+            r2 = rng.random()
+            if r2 < 0.3:
+                # parameter arrays of an integer / boolean / complex dtype; input weight of a "higher" kind than the parameters
+                c0["dt"] = rng.choice(["int32", "int64", "bool", "uint8", "float16", "complex64"])
+                if cls == "CubaLIF" and rng.random() < 0.4:
+                    c0["w_in"] = rng.choice([{"f": "cplx"}, {"f": "arr", "shape": [], "dt": "complex128"}, {"f": "py", "v": 2.5}, None])
+            if rng.random() < 0.25:
+                c0["npscalar"] = [i for i in range(len(shapes)) if rng.random() < 0.6]
+            cases.append(c0)
+            if rng.random() < 0.15:
+                # a rank-0 numpy scalar next to parameters of another shape (must be rejected like a 0-d array is)
+                shapes3 = [list(base) if base else [3] for _ in NEURONS[cls]]
+                j = rng.randrange(len(shapes3)); shapes3[j] = []
+                cases.append({"kind": "neuron", "cls": cls, "shapes": shapes3, "w_in": None, "npscalar": [j]})
             if cls == "CubaLIF" and rng.random() < 0.6:
                 # ONE parameter (each position in turn, v_threshold included) with a shape that broadcasts to the common one,
                 # together with an explicit input weight of the full shape
@@ -100,7 +114,13 @@ def mat_pad(p):
 
 def recipe(c):
     if c["kind"] == "neuron":
-        args = {p: np.ones(s, dtype="float32") for p, s in zip(NEURONS[c["cls"]], c["shapes"])}
+        dt = c.get("dt", "float32")
+        args = {p: np.ones(s, dtype=dt) for p, s in zip(NEURONS[c["cls"]], c["shapes"])}
+        for i in c.get("npscalar", []):
+            # a rank-0 parameter given as a numpy SCALAR object (arr.mean(), arr[0], np.float64(2.0)): its shape is ()
+            pn = NEURONS[c["cls"]][i]
+            if tuple(c["shapes"][i]) == ():
+                args[pn] = np.dtype(dt).type(1)
         w = c["w_in"]
         if w is not None:
             if w["f"] == "py":
@@ -109,8 +129,10 @@ def recipe(c):
                 args["w_in"] = int(w["v"])
             elif w["f"] == "np":
                 args["w_in"] = np.float32(w["v"])
+            elif w["f"] == "cplx":
+                args["w_in"] = np.complex128(1.5 + 0.5j)
             else:
-                args["w_in"] = np.full(w["shape"], 2.0, dtype="float64")
+                args["w_in"] = np.full(w["shape"], 2.0, dtype=w.get("dt", "float64"))
         return {"k": c["cls"], "args": args}
     if c["kind"] == "linear":
         args = {"weight": np.zeros(c["shape"], dtype="float32")}
